@@ -275,7 +275,7 @@ def damage_variants(data, how, thorough, rng):
     out = []
     n = len(data)
     if how in ("all", "all-catchall"):
-        offs = list(range(2048, n)) + (list(range(0, 2048)) if thorough else list(range(0, 2048, 8)) + [1, 7, 41, 43, 47, 2047])
+        offs = list(range(2048, n)) + (list(range(0, 2048)) if thorough else list(range(0, 2048, 16)) + [1, 7, 40, 41, 43, 47, 48, 2047])
         for o in sorted(set(offs)):
             out.append((1, "trunc@%d" % o, data[:o]))
         for off, kind in U.cdb_layout(data):
@@ -288,7 +288,9 @@ def damage_variants(data, how, thorough, rng):
             if kind == "dlen":
                 for v in (n, n + 4096):
                     out.append((1, "%s@%d=%d" % (kind, off, v), put(v)))
-            vals = {0, 1, 8, 2048, 0xffffffff, 0x80000000, old ^ 1, old ^ 0x100, old + 8, old - 8 if old >= 8 else 3, old * 2}
+            vals = {0, 2048, 0xffffffff, old ^ 1, old + 8}
+            if thorough:
+                vals |= {1, 8, 0x80000000, old ^ 0x100, old - 8 if old >= 8 else 3, old * 2}
             for v in sorted(vals - {old}):
                 out.append((2, "%s@%d:=%d" % (kind, off, v), put(v)))
     return out
@@ -419,6 +421,8 @@ class Runner:
         if job.damage in ("all", "all-catchall"):
             data = open(cdbp, "rb").read()
             rounds = damage_variants(data, job.damage, self.thorough, None)
+            if job.damage == "all-catchall" and not self.thorough:
+                rounds = rounds[::3]
             if job.part:
                 rounds = rounds[job.part[0]::job.part[1]]
             if getattr(job, "only", None) is not None:
